@@ -75,7 +75,7 @@ pub struct ExecOut {
     /// (op index, op kind, site)
     pub panic: Option<(usize, String, String)>,
     /// results of `ReadPages` ops: (op index, expected per (file,page), observed)
-    pub live_reads: Vec<(usize, String, BTreeMap<(u64, u32), Option<u32>>, BTreeMap<(u64, u32), RpRes>)>,
+    pub live_reads: Vec<(usize, Vec<&'static str>, BTreeMap<(u64, u32), Option<u32>>, BTreeMap<(u64, u32), RpRes>)>,
 }
 
 fn sync_mode_of(s: &str) -> SyncMode {
@@ -181,7 +181,7 @@ pub fn execute(start_open: bool, ops: &[Op], wal_dir: &Path) -> ExecOut {
                     out.model.apply(i, op);
                     let exp = expected_reads(&out.model);
                     let obs = read_all_pages(w);
-                    out.live_reads.push((i, out.model.shape_string(), exp, obs));
+                    out.live_reads.push((i, out.model.shape_fields(), exp, obs));
                     continue;
                 }
                 r
